@@ -98,13 +98,14 @@ def random_cases(ctx, count):
             else:                                   # one small-unit column next to unit columns (f64, lattice data)
                 sh[r.randrange(pp)] = 14
         d["sh"] = sh
+        d["lay"] = r.choice(["c", "c", "f", "t", "revr", "revc", "step"])     # memory layout of the record matrices
         out.append({"kind": kind, "inp": d})
     return out
 
 
 def nontrivial(case):
     """a case is non-trivial when it contains a degenerate or off-lattice situation named by the statement:
-    a constant or all-zero column, an all-zero row, an offset / badly scaled / small-unit column, f32, or a transformed
+    a constant or all-zero column, an all-zero row, an offset / badly scaled / small-unit column, a non-standard memory layout of the records, f32, or a transformed
     batch that is not the training matrix in its original order (unseen rows / non-empty selection)."""
     i = case["inp"]
     if case["kind"] == "empty":
@@ -114,7 +115,7 @@ def nontrivial(case):
     const = any(len(set(c)) == 1 for c in cols)
     zero_row = any(all(v == 0 for v in r) for r in X)
     wide = any(max(abs(v) for v in c) >= 100 for c in cols)
-    return const or zero_row or wide or any(i.get("sh", [])) or i["ft"] == "f32" or bool(i["sel"])
+    return const or zero_row or wide or any(i.get("sh", [])) or i.get("lay", "c") != "c" or i["ft"] == "f32" or bool(i["sel"])
 
 
 def run(ctx):
@@ -146,11 +147,15 @@ def run(ctx):
     ctx.rule = ("cases enumerated by TLC (Gen_Scaling): lin = every non-decreasing one-column matrix over -2..3 (n<=N1) + "
                 "two-column matrices over {-1,0,2} (all for n=2, hash sample for n>=3) + offset/badly scaled/constant/zero column "
                 "pairs, each x 6 scaler variants (min-max with 4 ranges); norm = every row over -2..3, p<=3, in batches of 6 x 3 norms; "
-                "wh = full-rank one/two-column matrices (+ badly scaled) x PCA/ZCA/Cholesky; empty = 9 estimators x p in 0..2 x f32/f64 "
+                "wh = full-rank one/two-column matrices (+ badly scaled) x PCA/ZCA/Cholesky; empty = 9 estimators x p in 0..2 x f32/f64; "
+                "+ the same matrices with columns in small units 2^-14..2^-20; every case hands its record matrices over in one of six "
+                "memory layouts (row-/column-major, transposed, reversed rows/columns, strided), all non-standard layouts enumerated "
+                "explicitly for norm / linear / whitening samples "
                 "[+ seeded random n<=30, p<=4 in the thorough tier]; each case transforms the training matrix, unseen rows, a "
                 "reordered selection with repetition and a single row; non-trivial = constant/zero column, zero row, offset or "
-                "badly scaled column, f32, non-empty selection, or empty training data; distinct by (kind, input)")
-    ctx.trusted = ["TLC + CommunityModules Json", "harness encoders: fixed point 1e-4 / 1e-6, non-finite list, row tags (harness/src/bin/c16.rs)",
+                "badly scaled or small-unit column, non-standard record layout, f32, non-empty selection, or empty training data; "
+                "distinct by (kind, input)")
+    ctx.trusted = ["TLC + CommunityModules Json", "harness encoders: fixed point 1e-4 / 1e-6, non-finite list, row tags, exact unit changes by 2^sh, construction of the record layouts (harness/src/bin/c16.rs)",
                    "specs/ScalingBig.tla (exact big integers; exercised by the invariants of the design model)"]
     ctx.assumptions = ["inputs are integer matrices (exactly representable in f32/f64); outputs are compared on a 1e-4 grid with one unit of tolerance",
                        "f32 only on the small lattice |x| <= 9; offset / badly scaled columns (|x| <= 3e4) in f64",
